@@ -141,13 +141,21 @@ def _old_components(term):
     return [t]
 
 
+def _reads(t):
+    """call sites of OpHeadsStore::get_op_heads a term derives from"""
+    return {x[3][:2] for x in term_calls(t) if x[1] == GET and x[3]}
+
+
 def _is_filtered_out_heads(t):
-    """before.difference(after) where `after` derives from dag_walk heads() and `before` does not"""
+    """before.difference(after) where `after` derives from dag_walk heads() and `before` does not, and both derive
+    from the SAME read of the op heads (a head published between two different reads would otherwise be classed
+    as an ancestor and removed)"""
     for c in term_calls(t):
         if name_matches(c[1], "re:HashSet.*::difference$") and len(c[2]) >= 2:
             a_has = any(name_matches(x[1], "re:^jj_core::dag_walk(_async)?::heads") for x in term_calls(c[2][0]))
             b_has = any(name_matches(x[1], "re:^jj_core::dag_walk(_async)?::heads") for x in term_calls(c[2][1]))
-            if b_has and not a_has:
+            ra, rb = _reads(c[2][0]), _reads(c[2][1])
+            if b_has and not a_has and ra and ra == rb:
                 return True
     return False
 
